@@ -1,8 +1,9 @@
 #!/bin/bash
-# runall.sh [tier] : run every registered check's tier sequentially, one summary line each
+# runall.sh [tier] ["C01 C02 ..."] : run every registered check's tier sequentially, one summary line each
 T=${1:-quick}
 cd /verif
-for c in $(python3 -c "import json;print(' '.join(x['property_id'] for x in json.load(open('MANIFEST.json'))['checks']))"); do
+LIST=${2:-$(python3 -c "import json;print(' '.join(x['property_id'] for x in json.load(open('/verif/MANIFEST.json'))['checks']))")}
+for c in $LIST; do
   s=$(date +%s)
   out=$(./check $c --tier $T 2>&1); rc=$?
   e=$(( $(date +%s) - s ))
